@@ -88,7 +88,17 @@ def run(res, replay=None):
         else:
             c = vec(scale, off)
             r = scale * rng.choice([0.5, 1.0, rng.unit() + 0.01, 0.0])   # 0: the zero-size spheres the API hands out (Sphere::EMPTY, one boundary point)
-            x = [c[k] + scale * rng.uniform(-2, 2) for k in range(3)]
+            if rng.chance(0.5) and r > 0:
+                # structured: just outside / just inside the sphere along axes, face diagonals, body diagonals and random directions
+                d = rng.choice([(1, 0, 0), (0, 1, 0), (0, 0, 1), (1, 1, 0), (1, 0, 1), (0, 1, 1), (1, 1, 1), (1, 1, 1), (1, 1, 1), None])
+                if d is None:
+                    d = [rng.uniform(-1, 1) for _ in range(3)]
+                d = [d[k] * rng.choice([1.0, -1.0]) for k in range(3)]
+                nd = math.sqrt(sum(v * v for v in d)) or 1.0
+                t_ = rng.choice([0.999, 1.0001, 1.01, 1.05, 1.1, 1.2, 1.22, 1.3, 1.7])
+                x = [c[k] + t_ * r * d[k] / nd for k in range(3)]
+            else:
+                x = [c[k] + scale * rng.uniform(-2, 2) for k in range(3)]
             cases.append({"op": op, "args": [c, x], "radius": r, "scale": scale, "off": off})
     wd = os.path.join(C.CACHE, "run", "c19")
     os.makedirs(wd, exist_ok=True)
